@@ -211,6 +211,11 @@ package claim
 //@   update xrApplied = true
 //@ site (client.SubResourceWriter).Update(_, _, $o)
 //@   update statusUpdated = true
+// the status update replaces the in-memory claim by what the server stored (metadata and spec as
+// they were): what is meant for the claim's final Update - the XR's external name - is set after it
+//@ optional site meta.SetExternalName($o, $n) as external-name-to-claim
+//@   where $o == cm
+//@   assert [C07:external-name-reaches-the-claim-after-the-status-update-that-would-discard-it] statusUpdated && $n == meta.GetExternalName(xr)
 
 // C09 / C02: the claim's connection secret is written only from a secret that the XR itself
 // controls, carries exactly that secret's data, and the write is refused for a secret
@@ -256,3 +261,16 @@ package claim
 //@ site resource.NewAPIUpdatingApplicator($c)
 //@   assert [C09:claim-secret-written-through-a-replacing-applicator-of-the-given-client] $c == c
 //@ ensures [C09:claim-secret-is-replaced-not-merged] result != nil && result.client.Applicator == $app && result.client.Client == c
+
+// C06 (a new claim never lands on somebody else's XR): the syncer a claim reconciler gets by
+// default generates XR names with the generator that checks, against the same client, that the
+// name is free.
+//@ func claim.defaultCRComposite
+//@ props C06
+//@ let $ng = result names.NewNameGenerator
+//@ let $syncer = result claim.NewClientSideCompositeSyncer
+//@ site names.NewNameGenerator($cl)
+//@   assert [C06:xr-names-are-generated-by-the-availability-checking-generator-of-this-client] $cl == c
+//@ site claim.NewClientSideCompositeSyncer($cl, $g)
+//@   assert [C06:default-syncer-uses-the-availability-checking-name-generator] $cl == c && $g == $ng
+//@ ensures [C06:default-syncer-is-the-one-built-here] result.CompositeSyncer == $syncer
